@@ -487,6 +487,12 @@ def run(ctx):
         yields = [n for n in astx.walk_fn(f.node) if isinstance(n, (ast.Yield, ast.YieldFrom))]
         if len(yields) == 1 and isinstance(yields[0], ast.YieldFrom) and match(pat("itertools.count($*ARGS)"), yields[0].value) is not None:
             o.holds(f, yields[0], "yield from itertools.count()")
+        elif len(yields) == 2 and all(isinstance(y_, ast.Yield) and isinstance(y_.value, ast.Name) for y_ in yields) and yields[0].value.id == yields[1].value.id \
+                and not Scope(f.node).parents.loops_of(yields[0]) and Scope(f.node).parents.loops_of(yields[1]) \
+                and isinstance(Scope(f.node).parents.stmt_of(yields[1]), ast.Expr) and Scope(f.node).parents.loops_of(yields[1])[0].body[0] is Scope(f.node).parents.stmt_of(yields[1]) \
+                and not [n for n in astx.walk_fn(f.node) if isinstance(n, (ast.Assign, ast.AugAssign, ast.AnnAssign)) and yields[0].value.id in [txt(t) for t in (n.targets if isinstance(n, ast.Assign) else [n.target])]
+                         and yields[0].lineno < n.lineno < yields[1].lineno]:
+            o.violated(f, yields[0], f"`{yields[0].value.id}` is yielded once before the loop and again, unchanged, as the loop's first value: the first two motif instances share an id", shape_free=True)
         elif len(yields) != 1 or not isinstance(yields[0], ast.Yield) or not isinstance(yields[0].value, ast.Name):
             rets = [n for n in astx.walk_fn(f.node) if isinstance(n, ast.Return) and n.value is not None]
             if not yields and len(rets) == 1 and match(pat("itertools.count($*ARGS)"), rets[0].value) is not None:
@@ -499,7 +505,18 @@ def run(ctx):
             y = yields[0]
             var = y.value.id
             loops = par.loops_of(y)
-            if not loops or not isinstance(loops[0], ast.While) or not (isinstance(loops[0].test, ast.Constant) and loops[0].test.value):
+            if len(loops) == 1 and isinstance(loops[0], ast.For) and isinstance(loops[0].target, ast.Name) and loops[0].target.id == var \
+                    and prog.external(f.module, loops[0].iter.func if isinstance(loops[0].iter, ast.Call) else loops[0].iter) == "itertools.count" \
+                    and not [n for n in ast.walk(loops[0]) if isinstance(n, (ast.Assign, ast.AugAssign, ast.AnnAssign))
+                             and var in [txt(t) for t in (n.targets if isinstance(n, ast.Assign) else [n.target])]]:
+                step = loops[0].iter.args[1] if len(loops[0].iter.args) > 1 else next((k.value for k in loops[0].iter.keywords if k.arg == "step"), None)
+                if step is None or (astx.const_value(step) or 0) > 0:
+                    o.holds(f, loops[0], f"`{var}` walks itertools.count() and nothing else writes it")
+                elif astx.const_value(step) is not None:
+                    o.violated(f, loops[0], f"itertools.count with step {txt(step)} does not increase the counter: ids repeat")
+                else:
+                    o.undecided(f"step `{txt(step)}` of itertools.count not decided", f, loops[0])
+            elif not loops or not isinstance(loops[0], ast.While) or not (isinstance(loops[0].test, ast.Constant) and loops[0].test.value):
                 o.undecided("the yield is not inside `while True`", f, y)
             else:
                 lp = loops[0]
